@@ -159,10 +159,9 @@ def r4_placement(rep, facts):
     R = rep.rule('C08/R4', 'tables without a position print after the preceding positioned table; implicit tables without values are hidden', floor=2)
     d = facts.method('core::fmt::Display', 'toml_edit::document::DocumentMut', 'fmt')
     b = facts.body(d)
-    upd = [n for n in walk(b['body']) if n.get('k') == 'assign' and (peel(n['lhs']).get('path') or '').startswith('last_position')]
-    pushes = [n for n in walk(b['body']) if n.get('k') == 'mcall' and n.get('name') == 'push' and any((x.get('path') or '').startswith('last_position') for x in walk(n))]
-    rep.check(R, 'Display for DocumentMut|position-inherited', len(upd) == 1 and len(pushes) == 1, 'tables.push((last_position, ..)) with last_position updated only from Some(pos)',
-              'tables are no longer keyed by the last seen position', facts.loc(b))
+    from .shared import position_carry
+    okp, detail, pb = position_carry(facts)
+    rep.check(R, 'Display for DocumentMut|position-inherited', okp, detail, f'tables are no longer keyed by the last seen position: {detail}', facts.loc(pb))
     b = facts.body('toml_edit::encode::visit_table')
     ev = Evaluator(facts)
     let = None
